@@ -1,6 +1,8 @@
 package engine
 
 import (
+	"context"
+
 	"github.com/prometheus/prometheus/promql"
 
 	"github.com/thanos-community/promql-engine/logicalplan"
@@ -147,4 +149,41 @@ func VerifH11s() {
 		}
 	}
 	sym.Reached("C11/shared-select/end")
+}
+
+// VerifH20l: a long range result (more than 121 points per series, the size Exec
+// pre-allocates) stays untouched after its query is closed and later queries ran.
+func VerifH20l() {
+	n := 125 + sym.Choice("extraSteps", 2)*5
+	var samples []stub.Sample
+	var vals []float64
+	for i := 0; i < n; i++ {
+		v := sym.Float64("v" + stub.Itoa(i))
+		vals = append(vals, v)
+		samples = append(samples, stub.Sample{T: int64(i) * 1000, V: v})
+	}
+	data := []*stub.Series{
+		stub.NewSeries(stub.Labels("__name__", "foo", "a", "x"), samples),
+		stub.NewSeries(stub.Labels("__name__", "bar", "a", "x"), []stub.Sample{{T: 0, V: sym.Float64("b0")}, {T: 1000, V: sym.Float64("b1")}}),
+	}
+	store := &stub.Queryable{Ser: data}
+	sym.SetGOMAXPROCS(2)
+	e := verifEngine(logicalplan.DefaultOptimizers, 300000)
+	qa, err := e.NewRangeQuery(store, nil, `foo`, sym.TimeMs(0), sym.TimeMs(int64(n-1)*1000), sym.DurMs(1000))
+	sym.Assert("C20/long/created", err == nil)
+	ra := qa.Exec(context.Background())
+	sym.Assert("C20/long/ok", ra.Err == nil)
+	m, _ := ra.Value.(promql.Matrix)
+	sym.Assert("C20/long/complete", len(m) == 1 && len(m[0].Points) == n)
+	qa.Close()
+	rb := verifExecRange(e, store, `bar`, 0, 1000, 1000)
+	sym.Assert("C20/long/second-ok", rb.Err == nil)
+	rc := verifExecRange(e, store, `sum(bar)`, 0, 1000, 1000)
+	sym.Assert("C20/long/third-ok", rc.Err == nil)
+	if len(m) == 1 && len(m[0].Points) == n {
+		for i := 0; i < n; i++ {
+			sym.Assert("C20/long/result-untouched", sym.And(m[0].Points[i].T == int64(i)*1000, sym.SameF(m[0].Points[i].V, vals[i])))
+		}
+	}
+	sym.Reached("C20/long/end")
 }
